@@ -23,6 +23,7 @@ EXPLANATION = (
     "resets the per-request retry counter; (R3) _ensure_lock re-creates the lock and closes the old transport when the running "
     "loop changed. The number and spacing of transmissions observed on a wire are not decided."
     ' (R5) inventory of the places that schedule _timeout_mechanism with a delay (both _send_request methods, both partial-response handlers): the delay is self.timeout itself.'
+    ' (R6, shared with C04.R1) every transmission in _send_request is followed by self._timer = call_later(self.timeout, self._timeout_mechanism).'
 )
 
 ROLES = ("host", "port", "comm_addr", "timeout", "retries")
@@ -52,6 +53,15 @@ def check(ctx: Ctx, rep: Report):
     rep.rule("C05.R5", "every wait is the configured one: wherever self._timeout_mechanism is scheduled with a delay, the delay is self.timeout itself", 1)
     from .proto import timeout_delays
     timeout_delays(ctx, rep, "C05.R5")
+    rep.rule("C05.R6", "every transmission is followed by arming the timeout (shared with C04.R1): a request sent without a timer is not given its configured timeout and retries at all", 4)
+    from .c04 import r1 as _c04_r1
+    from ..core import Report as _R6
+    _s6 = _R6("C04", rep.tier)
+    for _ci in proto_classes(ctx):
+        _c04_r1(ctx, _s6, _ci)
+    for o in _s6.obligations:
+        if o.rule == "C04.R1":
+            rep.obligations.append(type(o)("C05.R6", o.key, o.where, o.what, o.status, o.detail))
 
 
 def close_transport_cancels_timer(ctx: Ctx, ci) -> bool:
